@@ -395,6 +395,26 @@ fn run(op: &Value) -> Value {
                 Err(e) => json!({"ok": false, "calls": c, "cause": e.cause().to_string()}),
             }
         }
+        "smile_nested" => {
+            // C01: values whose serde impls consult is_human_readable(), nested below a container, through Smile and JSON
+            use conjure_object::{ResourceIdentifier, Uuid};
+            use std::collections::BTreeMap;
+            let u = Uuid::from_bytes(<[u8; 16]>::try_from(&hex(op["uuid"].as_str().unwrap_or("00112233445566778899aabbccddeeff"))[..]).unwrap());
+            fn rt<T: serde::Serialize + serde::de::DeserializeOwned + PartialEq + std::fmt::Debug>(v: &T) -> Value {
+                let sm = conjure_serde::smile::to_vec(v);
+                let sm_server = sm.as_ref().ok().map(|b| conjure_serde::smile::server_from_slice::<T>(b));
+                let sm_client = sm.as_ref().ok().map(|b| conjure_serde::smile::client_from_slice::<T>(b));
+                let js = conjure_serde::json::to_vec(v);
+                let js_server = js.as_ref().ok().map(|b| conjure_serde::json::server_from_slice::<T>(b));
+                let show = |r: Option<Result<T, String>>| match r { Some(Ok(x)) => if &x == v { "equal".to_string() } else { format!("different: {:?}", x) }, Some(Err(e)) => format!("error: {}", e), None => "not serialized".to_string() };
+                json!({"smile_server": show(sm_server.map(|r| r.map_err(|e| e.to_string()))), "smile_client": show(sm_client.map(|r| r.map_err(|e| e.to_string()))),
+                       "json_server": show(js_server.map(|r| r.map_err(|e| e.to_string())))})
+            }
+            let mut m = BTreeMap::new();
+            m.insert(u, 1i32);
+            let rid = ResourceIdentifier::new("ri.a.b.c.d").unwrap();
+            json!({"top_uuid": rt(&u), "vec_uuid": rt(&vec![u]), "option_uuid": rt(&Some(u)), "map_uuid_key": rt(&m), "vec_rid": rt(&vec![rid])})
+        }
         "unknown_fields" => {
             #[derive(serde::Deserialize, Debug)]
             #[allow(dead_code)]
@@ -457,15 +477,19 @@ fn run(op: &Value) -> Value {
                 "char" => rt!(char, char::from_u32(n.parse().unwrap()).unwrap()),
                 "f64" => {
                     let v = f64::from_bits(n.parse().unwrap());
+                    let direct = conjure_serde::json::to_string(&v).ok();
+                    let via = Any::new(v).ok().and_then(|a| conjure_serde::json::to_string(&a).ok());
                     match Any::new(v).and_then(|a| a.deserialize_into::<f64>()) {
-                        Ok(b) => json!({"same": b.to_bits() == v.to_bits() || (b.is_nan() && v.is_nan()), "back_bits": b.to_bits().to_string()}),
+                        Ok(b) => json!({"same": (b.to_bits() == v.to_bits() || (b.is_nan() && v.is_nan())) && direct == via, "back_bits": b.to_bits().to_string(), "json_direct": direct, "json_via_any": via}),
                         Err(e) => json!({"same": false, "err": e.to_string()}),
                     }
                 }
                 "f32" => {
                     let v = f32::from_bits(n.parse::<u64>().unwrap() as u32);
+                    let direct = conjure_serde::json::to_string(&v).ok();
+                    let via = Any::new(v).ok().and_then(|a| conjure_serde::json::to_string(&a).ok());
                     match Any::new(v).and_then(|a| a.deserialize_into::<f32>()) {
-                        Ok(b) => json!({"same": b.to_bits() == v.to_bits() || (b.is_nan() && v.is_nan()), "back_bits": b.to_bits().to_string()}),
+                        Ok(b) => json!({"same": (b.to_bits() == v.to_bits() || (b.is_nan() && v.is_nan())) && direct == via, "back_bits": b.to_bits().to_string(), "json_direct": direct, "json_via_any": via}),
                         Err(e) => json!({"same": false, "err": e.to_string()}),
                     }
                 }
